@@ -134,3 +134,63 @@ class AdaptQuery:
             else:
                 for f in ('log_step', 'm', 'v', 't'): out['adam_' + f] = L.get('Adam', inner, f)
         return out
+
+
+class ExternalAdaptQuery(AdaptQuery):
+    """same one-step query for ExternalTransformAdaptation::adapt (flow presets); hamiltonian.update_params is the environment"""
+    def __init__(self, mir, L, method, jitter):
+        AdaptQuery.__init__(self, mir, L, method, jitter)
+        self.fn = mir.method('ExternalTransformAdaptation', 'AdaptStrategy', 'adapt')
+        vm = self.vm
+        def update_params(vm, m, c, a):
+            outs = []
+            for ok in (True, False):
+                m2 = m.clone(); m2.log('events', ('update_params', ok)); outs.append((m2, 'ret', OK(UNIT) if ok else ERR(Opaque('NutsError'))))
+            return outs
+        vm.add_model(r'^TransformedHamiltonian::<M, ExternalTransformation<M>>::update_params::<', update_params)
+        def is_mult(vm, m, c, a):
+            x, k = a
+            if not is_sym(x) and not is_sym(k): return ret(m, (x == 0) if k == 0 else (x % k == 0))
+            # which draws are multiples of the update frequency is irrelevant to the property: arbitrary outcome (over-approximation, avoids non-linear mod)
+            return ret(m, z3.Bool('is_multiple_%d' % m.fresh_id()))
+        vm.add_model(r'^(core|std)::num::<impl u64>::is_multiple_of$', is_mult)
+
+    def pre_state(self, m):
+        gs, pre = AdaptQuery.pre_state(self, m)
+        L = self.L; R = self.R; I = self.I
+        step = L.get('GlobalStrategy', gs, 'step_size'); ss = L.get('Strategy', step, 'options', file='stepsize')
+        opts = L.make('FlowSettings', {'step_size_window': R('step_size_window'), 'transform_update_freq': I('update_freq'), 'use_orbit_for_training': False, 'step_size_settings': ss, 'transform_train_max_energy_error': R('tmee')})
+        ext = L.make('ExternalTransformAdaptation', {'step_size': step, 'options': opts, 'num_tune': I('num_tune'), 'final_window_size': I('final_window'), 'tuning': z3.Bool('tuning'), 'chain': 0})
+        return ext, pre
+
+    def run(self, extra_pre=()):
+        m = Machine(); m.ghost['events'] = []
+        ext, pre = self.pre_state(m); m.pc = list(pre) + list(extra_pre)
+        m.ghost['mm'] = {'fg': z3.Int('fg_count'), 'bg': z3.Int('bg_count')}
+        m.ghost['cells'] = {'step_size': m.alloc(self.A.fresh('old_step_size')), 'transformation': m.alloc(Opaque('transformation'))}
+        L = self.L; A = self.A
+        def rm(tag): return L.make('RunningMean', {'sum': A.fresh('col_sum_' + tag), 'count': z3.Int('col_count')})
+        col1 = L.make('AcceptanceRateCollector', {'initial_energy': A.fresh('col_e0'), 'mean': rm('mean'), 'mean_sym': rm('sym'), 'max_energy_error': A.fresh('col_maxerr')})
+        m.pc += [z3.Int('col_count') >= 1, z3.Int('col_count') < 2 ** 20]
+        col2 = L.make('DrawCollector', {'draws': Seq(()), 'grads': Seq(()), 'logps': Seq(()), 'collect_orbit': False, 'max_energy_error': A.fresh('dc_mee')})
+        comb = Struct((col1, col2, Struct((), 'PhantomData')), 'CombinedCollector')
+        gc = m.alloc(ext); self.gs_cell = gc
+        args = [Ref(gc), Ref(m.alloc(Opaque('math'))), Ref(m.alloc(Opaque('nuts_options'))), Ref(m.alloc(Opaque('hamiltonian'))), z3.Int('draw'),
+                Ref(m.alloc(comb)), Ref(m.alloc(Opaque('state'))), Ref(m.alloc(Opaque('rng')))]
+        self.pre = pre
+        return list(self.vm.exec_fn(m, self.fn, args))
+
+    def post(self, m):
+        ext = m.mem[self.gs_cell]; L = self.L
+        g = lambda f: L.get('ExternalTransformAdaptation', ext, f)
+        step = g('step_size'); ad = L.get('Strategy', step, 'adaptation', file='stepsize')
+        out = {'tuning': g('tuning'), 'has_initial': False, 'last_update': z3.Int('last_update'), 'window': z3.Int('window'), 'num_tune': g('num_tune'), 'early_end': z3.Int('early_end'), 'final_window': g('final_window_size'),
+               'step_size': self.vm.read_at(m, m.ghost['cells']['step_size'], []), 'mm': m.ghost['mm'], 'events': m.ghost['events'],
+               'last_mean': L.get('Strategy', step, 'last_mean_tree_accept', file='stepsize'), 'last_sym': L.get('Strategy', step, 'last_sym_mean_tree_accept', file='stepsize')}
+        if ad.name == 'Some':
+            inner = ad.f[0].f[0]
+            if ad.f[0].name == 'Left':
+                for f in ('log_step', 'log_step_adapted', 'hbar', 'count'): out['da_' + f] = L.get('DualAverage', inner, f)
+            else:
+                for f in ('log_step', 'm', 'v', 't'): out['adam_' + f] = L.get('Adam', inner, f)
+        return out
